@@ -50,8 +50,14 @@ var codecSubtypes = []byte{0, 1, 2, 2, 3, 4, 5, 6, 7, 8, 9, 127, 128, 255}
 var codecFloatBits = []uint64{0, 1 << 63, 0x7ff0000000000000, 0xfff0000000000000, 0x7ff8000000000000, 0x7ff8000000000001, 0xfff8000000000000, 0x7ff0000000000001, 0xffffffffffffffff, 1, 0x000fffffffffffff}
 var codecDecBits = [][2]uint64{{0x7c00000000000000, 0}, {0x7800000000000000, 0}, {0xf800000000000000, 0}, {0x7e00000000000000, 5}, {0xffffffffffffffff, 0xffffffffffffffff}, {0, 0}, {0x6000000000000000, 1}, {0x3040000000000000, 0xffffffffffffffff}}
 
-// codecBig: 70 kB strings are drawn for the byte-level cases only
-var codecBig = true
+// codecBig: 70 kB strings (a length of three bytes) are drawn for the
+// byte-level cases only, and not among the first cases of a run: those are
+// also evaluated inside Coq, whose parser overflows its stack on a string
+// literal of that size (the extracted model has no such limit).
+var codecBig = false
+var codecGenCount = 0
+
+const codecBigAfter = 1600 // > the largest in-Coq sample of bin/checks.d/C06.json
 
 func genCodecScalar(r *rng) interface{} {
 	switch r.intn(16) {
@@ -563,8 +569,6 @@ func genHistory(r *rng, dotted bool) []hop {
 	if dotted {
 		dbs = []string{"a.b", "db1", "a.b", "x.y.z"}
 	}
-	codecBig = false
-	defer func() { codecBig = true }()
 	n := 3 + r.intn(22)
 	var hs []hop
 	type nsName struct{ db, coll, name string }
@@ -790,8 +794,10 @@ func catalogText(c *lungo.Catalog, canonTime bool) string {
 					}
 					return v
 				}
-				// Transaction.Drop of a database emits its "drop" events in Go map
-				// order: runs of consecutive drop events are sorted by namespace
+				// Transaction.Drop of a database emits its "drop" events, and
+				// Transaction.Expire its "delete" events, in Go map order of the
+				// namespaces: runs of consecutive drop / delete events are sorted
+				// by namespace and document key
 				get := func(d bson.D, k string) interface{} {
 					for _, e := range d {
 						if e.Key == k {
@@ -802,17 +808,19 @@ func catalogText(c *lungo.Catalog, canonTime bool) string {
 				}
 				docs := img[i].docs
 				for a := 0; a < len(docs); {
+					op := get(docs[a], "operationType")
+					if op != "drop" && op != "delete" {
+						a++
+						continue
+					}
 					b := a
-					for b < len(docs) && get(docs[b], "operationType") == "drop" {
+					for b < len(docs) && get(docs[b], "operationType") == op {
 						b++
 					}
-					if b > a {
-						run := docs[a:b]
-						sort.SliceStable(run, func(x, y int) bool { return enc(get(run[x], "ns")) < enc(get(run[y], "ns")) })
-						a = b
-					} else {
-						a++
-					}
+					run := docs[a:b]
+					key := func(d bson.D) string { return enc(get(d, "ns")) + enc(get(d, "documentKey")) }
+					sort.SliceStable(run, func(x, y int) bool { return key(run[x]) < key(run[y]) })
+					a = b
 				}
 				for j, d := range img[i].docs {
 					img[i].docs[j] = canon(d).(bson.D)
@@ -1158,6 +1166,9 @@ func init() {
 	register(&family{
 		name: "codec",
 		gen: func(r *rng) string {
+			codecGenCount++
+			codecBig = codecGenCount > codecBigAfter
+			defer func() { codecBig = false }()
 			switch k := r.intn(20); {
 			case k < 9:
 				if r.chance(1, 25) {
@@ -1324,7 +1335,9 @@ func oracleC06(r *rng, n int, st *oracleStats) []oracleFailure {
 		scenarios = 1
 	}
 	for i := 0; i < n; i++ {
+		codecBig = true
 		d := normalise(genCodecDoc(r, 3)).(bson.D)
+		codecBig = false
 		st.Evaluations++
 		b, err := bson.Marshal(d)
 		if err != nil {
